@@ -739,7 +739,31 @@ func (g *Gen) localsAt(b *ssa.BasicBlock, atStart bool, st State) map[string]T {
 	for k, v := range g.paramEnv {
 		vars[k] = v
 	}
+	// variables that live in a cell (address taken / captured): their current content
+	cellVars := map[string]bool{}
+	for _, blk := range g.fn.Blocks {
+		for _, in := range blk.Instrs {
+			a, ok := in.(*ssa.Alloc)
+			if !ok || a.Comment == "" || !g.isCellAlloc(a) {
+				continue
+			}
+			if !(blk == b || blk.Dominates(b)) {
+				continue
+			}
+			lv := g.resolveAddr(a, st)
+			if lv.kind == lvCell {
+				if _, isParam := g.paramEnv[a.Comment]; isParam {
+					// a parameter copied into a cell: the contract's name means the current value too
+				}
+				vars[a.Comment] = T{S: g.stGet(st, lv.heap, lv.hso), So: lv.so, GoT: lv.goT}
+				cellVars[a.Comment] = true
+			}
+		}
+	}
 	for name, ds := range g.defs {
+		if cellVars[name] {
+			continue
+		}
 		var best *nameDef
 		for i := range ds {
 			d := &ds[i]
@@ -1090,10 +1114,10 @@ func (g *Gen) needErrIs() {
 	cas := gname("ErrCASFailed")
 	unc := gname("ErrUncertainResult")
 	g.assume(fmt.Sprintf("(forall ((e!q Iface) (t!q Iface)) (! (=> (and (not (= e!q inil)) (= (itag e!q) %d)) (= (err_is e!q t!q) (or (= e!q t!q) (= t!q %s)))) :pattern ((err_is e!q t!q))))", g.te.tagOf(ct), cas))
-	uso := g.te.sortOf(ut.(*types.Pointer).Elem())
-	_ = uso
-	oh := g.stGet(st, g.fieldHeapName(ut.(*types.Pointer).Elem(), "originErr"), &Sort{K: KRaw, Name: "(Array Int Iface)"})
-	g.assume(fmt.Sprintf("(forall ((e!q Iface) (t!q Iface)) (! (=> (and (not (= e!q inil)) (= (itag e!q) %d)) (= (err_is e!q t!q) (or (= e!q t!q) (= t!q %s) (err_is (select %s (iptr e!q)) t!q)))) :pattern ((err_is e!q t!q))))", g.te.tagOf(ut), unc, oh))
+	// *storage.errUncertainResult: matches ErrUncertainResult (its Is method, verified under C09); what
+	// else it matches depends on the wrapped error and is stated by NewErrUncertainResult's contract
+	// (a recursive axiom over the chain would make the instantiation loop)
+	g.assume(fmt.Sprintf("(forall ((e!q Iface)) (! (=> (and (not (= e!q inil)) (= (itag e!q) %d)) (err_is e!q %s)) :pattern ((itag e!q))))", g.te.tagOf(ut), unc))
 	g.assumed["errors.Is axioms for nil, plain sentinels, *storage.Conflict, *storage.errUncertainResult (the two Is methods are verified under C09)"] = true
 }
 
